@@ -44,6 +44,11 @@ class Effects:
     def _effect(self, kind: str, target: str) -> bool:
         """records the effect; returns True when the process is to be killed at this point"""
         idx = len(self.trace)
+        if self.killed:
+            # the kill has been delivered: what cleanup handlers (`finally`, `except BaseException`) still do takes effect
+            self.trace.append((kind + ":cleanup", target))
+            self.payload.append(None)
+            return False
         if self.kill_at is not None and idx == self.kill_at:
             self.killed = True
             return True
